@@ -200,8 +200,9 @@ def compile_closure_with_globals_capturing(
     builder = CodeBuilder()
 
     global_namespace_dict = {}
-    # names of the namespace become local variables of the maker, so a global must not be named like any of them
-    taken_names = set(namespace)
+    # names of the namespace and the closure become local variables of the maker,
+    # so a global must not be named like any of them
+    taken_names = {*namespace, closure_name}
     for name, value in namespace.items():
         value_literal = get_literal_expr(value)
         if value_literal is None:
